@@ -348,9 +348,8 @@ mutant('C14', 'module-error-status-idle', 'frappy/states.py',
 mutant('C15', 'shutdown-order-reversed', 'frappy/secnode.py',
        "                return l[::-1] + list(visited) + list(unmarked)\n        return l[::-1]",
        "                return l[::-1] + list(visited) + list(unmarked)\n        return l")
-mutant('C15', 'shutdown-ignores-configured-attachments', 'frappy/secnode.py',
-       "        names = [m.name for m in modobj.attachedModules.values()]\n        for pname, prop in modobj.propertyDict.items():",
-       "        names = [m.name for m in modobj.attachedModules.values()]\n        for pname, prop in ():")
+# (the mutant 'shutdown-ignores-configured-attachments' - shutdown order from the attachments used so far only - is
+# equivalent since fix 4cd9344: check_attachments resolves every attachment before the start)
 mutant('C15', 'shutdown-before-stopping-pollers', 'frappy/secnode.py',
        "        for mod in self.modules.values():\n            mod.stopPollThread()\n            # do not yet join here, as we want to wait in parallel",
        "        for name in self._getSortedModules():\n            self.modules[name].shutdownModule()\n        for mod in self.modules.values():\n            mod.stopPollThread()\n            # do not yet join here, as we want to wait in parallel")
